@@ -376,6 +376,12 @@ func runC07(r *Run) {
 					if d.n(2) == 1 {
 						op.Conds.MetaMatch = ip(int64(1 + d.n(2)))
 					}
+					if d.n(3) == 2 {
+						// a client writing back a resource it read earlier: the body names the
+						// (by now stale) metageneration, which is not the client's to set
+						op.Body["metageneration"] = "1"
+						r.Probe("c07.patch_body_names_stale_metageneration")
+					}
 					in = c07In{Kind: "patch", Op: op, Name: name, Desc: op.String()}
 				case 2:
 					op := gOp{Kind: "Delete", Bucket: "bkt", Name: name}
